@@ -188,6 +188,19 @@ fn model_space(tier: Tier) -> Vec<ModelCfg> {
             }
         }
     }
+    // two deep stacks (more layers and parameters than the exhaustive part reaches)
+    for (sizes, acts_) in [
+        (vec![2usize, 3, 2, 3, 2], vec![Act::Sigmoid, Act::Relu, Act::None, Act::Sigmoid]),
+        (vec![3usize, 4, 4, 3, 2, 2], vec![Act::Relu, Act::Sigmoid, Act::Relu, Act::None, Act::Softmax]),
+    ] {
+        let layers: Vec<LayerCfg> = (0..acts_.len()).map(|i| LayerCfg::Dense { inp: sizes[i], out: sizes[i + 1], act: acts_[i] }).collect();
+        for cost in [CostK::Mse, CostK::CrossEntropy] {
+            if cost == CostK::CrossEntropy && !matches!(acts_[acts_.len() - 1], Act::Sigmoid | Act::Softmax) {
+                continue;
+            }
+            out.push(ModelCfg { layers: layers.clone(), cost, lr: 0.25, salt: 11, inputs: vec![vec![sizes[0]], vec![2, sizes[0]], vec![5, sizes[0]]] });
+        }
+    }
     // convolutional stacks
     let conv1 = LayerCfg::Conv { count: 2, depth: 1, fr: 2, fc: 2, sr: 1, sc: 1, act: Act::Relu };
     let conv1s = LayerCfg::Conv { count: 1, depth: 2, fr: 2, fc: 2, sr: 2, sc: 1, act: Act::Sigmoid };
